@@ -98,16 +98,20 @@ def order_fields(o: Order) -> Dict[str, Any]:
             "price": o.price, "ttl": o.ttl, "order_id": o.order_id, "placed_at": o.placed_at}
 
 
+def _cur_session(sim):
+    return sim.current_session.session_id if getattr(sim, "current_session", None) is not None else None
+
+
 class RecLogger(Logger):
     def write(self, log):
         tr = T()
-        tr.add("log.write", log=log, times=times(tr.sim))
+        tr.add("log.write", log=log, times=times(tr.sim), session_now=_cur_session(tr.sim))
         super().write(log)
 
     def bulk_write(self, logs):
         tr = T()
         for l in logs:
-            tr.add("log.bulk", log=l, times=times(tr.sim))
+            tr.add("log.bulk", log=l, times=times(tr.sim), session_now=_cur_session(tr.sim))
         super().bulk_write(logs)
 
     def write_and_direct_process(self, log):
@@ -128,7 +132,8 @@ class RecLogger(Logger):
 
     # the records as a user's Logger subclass receives them: through the per-type handlers that Logger.process dispatches to
     def _handled(self, handler, log):
-        T().add("log.process", log=log, handler=handler)
+        tr = T()
+        tr.add("log.process", log=log, handler=handler, session_now=_cur_session(tr.sim))
 
     def process_order_log(self, log):
         self._handled("OrderLog", log)
@@ -237,7 +242,11 @@ class _Scripted(_Recording):
             elif kind == "C":
                 cands = [o for o in self.mine if o.placed_at is not None]
                 if cands:
-                    out.append(Cancel(order=cands[spec[1] % len(cands)]))
+                    tgt = cands[spec[1] % len(cands)]
+                    # (every third cancel carries its optional time stamp already -- stale on purpose: the market stamps it on acceptance)
+                    c_ = Cancel(order=tgt, placed_at=0) if spec[1] % 3 == 2 else Cancel(order=tgt)
+                    c_.v_prestamped = spec[1] % 3 == 2
+                    out.append(c_)
             elif kind == "RS":  # illegal: re-submit an already accepted order object
                 cands = [o for o in self.mine if o.placed_at is not None]
                 if cands:
